@@ -8,6 +8,7 @@ import (
 	"math"
 	"math/big"
 	"strconv"
+	"strings"
 	"unicode/utf8"
 
 	"github.com/ohler55/slip"
@@ -48,7 +49,7 @@ var (
 		"billion",
 		"trillion",
 		"quadrillion",
-		"quantillion",
+		"quintillion",
 		"sextillion",
 		"septillion",
 		"octillion",
@@ -1171,7 +1172,6 @@ func (c *control) dirR(colon, at bool, params []any) {
 	var (
 		digits []byte
 		words  []string
-		sep    string
 	)
 	arg := c.args[c.argPos]
 	c.argPos++
@@ -1184,7 +1184,7 @@ func (c *control) dirR(colon, at bool, params []any) {
 		slip.TypePanic(c.scope, 0, "argument to radix directive", ta, "fixnum", "bignum")
 	}
 	if at {
-		if digits[0] == '-' {
+		if digits[0] == '-' || (len(digits) == 1 && digits[0] == '0') {
 			slip.ErrorPanic(c.scope, 0, "number too small to print using the Radix directive at %d of %q", c.pos, c.str)
 		}
 		if 4 < len(digits) || (3 < len(digits) && '3' < digits[0]) {
@@ -1216,70 +1216,65 @@ func (c *control) dirR(colon, at bool, params []any) {
 			}
 			return
 		}
-		one := cardinalOne
-		teen := cardinalTeen
-		if colon {
-			// prints arg as an ordinal English number: fourth.
-			one = ordinalOne
-			teen = ordinalTeen
+		if 3*len(cardinalTriples) < len(digits) {
+			slip.ErrorPanic(c.scope, 0, "number too large to print using the Radix directive at %d of %q", c.pos, c.str)
 		}
-		i := len(digits) - 1
-		for _, trip := range cardinalTriples {
-			if 0 < len(trip) {
-				words = append(words, trip)
-			}
-			zero := true
-			d := digits[i]
-			i--
-			if i < 0 {
-				words = append(words, one[d-'0'])
-				break
-			}
-			d10 := digits[i]
-			i--
-			switch d10 {
-			case '0':
-				if d != '0' {
-					zero = false
-					words = append(words, one[d-'0'])
-				}
-			case '1':
-				zero = false
-				words = append(words, teen[d-'0'])
-			default:
-				zero = false
-				words = append(words, one[d-'0'])
-				words = append(words, cardinalTen[d10-'0'-2])
-			}
-			one = cardinalOne
-			teen = cardinalTeen
-			if 0 <= i {
-				d := digits[i]
-				i--
-				if d != '0' {
-					zero = false
-					words = append(words, "hundred")
-					words = append(words, one[d-'0'])
-				}
-			}
-			if zero {
-				words = words[:len(words)-1]
-			}
-			if i < 0 {
-				break
-			}
+		for len(digits)%3 != 0 {
+			digits = append([]byte{'0'}, digits...)
 		}
 		if neg {
 			words = append(words, "negative")
 		}
-		sep = " "
+		for i := 0; i < len(digits); i += 3 {
+			h, t, u := digits[i]-'0', digits[i+1]-'0', digits[i+2]-'0'
+			if h == 0 && t == 0 && u == 0 {
+				continue
+			}
+			if 0 < h {
+				words = append(words, cardinalOne[h], "hundred")
+			}
+			if t == 1 {
+				words = append(words, cardinalTeen[u])
+			} else {
+				if 2 <= t {
+					words = append(words, cardinalTen[t-2])
+				}
+				if 0 < u {
+					words = append(words, cardinalOne[u])
+				}
+			}
+			if trip := cardinalTriples[(len(digits)-i)/3-1]; 0 < len(trip) {
+				words = append(words, trip)
+			}
+		}
+		if colon {
+			// prints arg as an ordinal English number: fourth.
+			words[len(words)-1] = ordinalWord(words[len(words)-1])
+		}
+		c.out = append(c.out, strings.Join(words, " ")...)
+		return
 	}
 	for i := len(words) - 1; 0 <= i; i-- {
 		c.out = append(c.out, words[i]...)
-		if 0 < i {
-			c.out = append(c.out, sep...)
+	}
+}
+
+// ordinalWord returns the ordinal form of the last word of a cardinal number.
+func ordinalWord(word string) string {
+	for i, w := range cardinalOne {
+		if w == word {
+			return ordinalOne[i]
 		}
 	}
+	for i, w := range cardinalTeen {
+		if w == word {
+			return ordinalTeen[i]
+		}
+	}
+	if strings.HasSuffix(word, "y") {
+		return word[:len(word)-1] + "ieth"
+	}
+	return word + "th"
 }
 
 func (c *control) dirS(colon, at bool, params []any) {
